@@ -109,6 +109,7 @@ type FuncVC struct {
 	curBlock    *ssa.BasicBlock
 	bounded     bool
 	boundActive []string
+	noFacts     int
 	recSpecs    map[string]*recSpecInfo
 }
 
@@ -253,7 +254,7 @@ func (f *FuncVC) havocAll(st *State, why string) {
 func (f *FuncVC) bumpWM(st *State) {
 	nw := f.sc.fresh("wm")
 	f.sc.declare(nw, "Int")
-	f.sc.assert(cmp(">=", nw, st.wm))
+	f.fact(st, cmp(">=", nw, st.wm))
 	st.wm = nw
 }
 
@@ -330,7 +331,7 @@ func (f *FuncVC) nameAndRange(st *State, v *Val, base string) {
 			v.T = f.sc.define(base, "Int", v.T)
 			if b := basicOf(v.Ty); b != nil {
 				if lo, hi, ok := intRange(b); ok {
-					f.sc.assert(and(cmp("<=", numBig(lo), v.T), cmp("<=", v.T, numBig(hi))))
+					f.fact(st, and(cmp("<=", numBig(lo), v.T), cmp("<=", v.T, numBig(hi))))
 					v.Lo, v.Hi = lo, hi
 				}
 			}
@@ -339,7 +340,7 @@ func (f *FuncVC) nameAndRange(st *State, v *Val, base string) {
 				v.T = f.sc.define(base, sortOfKind(v.K), v.T)
 			}
 			if v.K == KMap {
-				f.sc.assert(cmp(">=", v.T, "0"))
+				f.fact(st, cmp(">=", v.T, "0"))
 			}
 		case KSlice:
 			for _, c := range v.Fs {
@@ -353,10 +354,10 @@ func (f *FuncVC) nameAndRange(st *State, v *Val, base string) {
 			if len(v.Fs) == 2 {
 				v.Fs[0].T = f.sc.define(base, "Int", v.Fs[0].T)
 				v.Fs[1].T = f.sc.define(base, "Int", v.Fs[1].T)
-				f.sc.assert(and(cmp(">=", v.Fs[0].T, "0"), cmp("<", v.Fs[0].T, st.wm), cmp(">=", v.Fs[1].T, "0")))
+				f.fact(st, and(cmp(">=", v.Fs[0].T, "0"), cmp("<", v.Fs[0].T, st.wm), cmp(">=", v.Fs[1].T, "0")))
 			} else {
 				v.T = f.sc.define(base, "Int", v.T)
-				f.sc.assert(and(cmp(">=", v.T, "0"), cmp("<", v.T, st.wm)))
+				f.fact(st, and(cmp(">=", v.T, "0"), cmp("<", v.T, st.wm)))
 			}
 		case KIface:
 			v.Fs[0].T = f.sc.define(base, "Int", v.Fs[0].T)
@@ -380,14 +381,14 @@ func (f *FuncVC) nameAndRange(st *State, v *Val, base string) {
 
 func (f *FuncVC) assertSliceWF(st *State, v *Val) {
 	ref, off, ln, cp := v.Fs[0].T, v.Fs[1].T, v.Fs[2].T, v.Fs[3].T
-	f.sc.assert(and(cmp(">=", ref, "0"), cmp("<", ref, st.wm), cmp(">=", off, "0"), cmp(">=", ln, "0"), cmp("<=", ln, cp),
+	f.fact(st, and(cmp(">=", ref, "0"), cmp("<", ref, st.wm), cmp(">=", off, "0"), cmp(">=", ln, "0"), cmp("<=", ln, cp),
 		implies(eq(ref, "0"), eq(cp, "0")), cmp("<=", arith("+", off, cp), maxElems)))
 	v.Fs[2].Lo = big.NewInt(0)
 }
 
 func (f *FuncVC) assertIfaceWF(st *State, v *Val) {
 	tag, pay := v.Fs[0].T, v.Fs[1].T
-	f.sc.assert(and(cmp(">=", tag, "0"), implies(eq(tag, "0"), eq(pay, "0")), cmp("<", pay, st.wm)))
+	f.fact(st, and(cmp(">=", tag, "0"), implies(eq(tag, "0"), eq(pay, "0")), cmp("<", pay, st.wm)))
 }
 
 func (f *FuncVC) navigate(v *Val, path []PathElem) *Val {
@@ -606,7 +607,7 @@ func (f *FuncVC) assertWF(st *State, v *Val) {
 	case KInt:
 		if b := basicOf(v.Ty); b != nil {
 			if lo, hi, ok := intRange(b); ok {
-				f.sc.assert(and(cmp("<=", numBig(lo), v.T), cmp("<=", v.T, numBig(hi))))
+				f.fact(st, and(cmp("<=", numBig(lo), v.T), cmp("<=", v.T, numBig(hi))))
 				v.Lo, v.Hi = lo, hi
 			}
 		}
@@ -615,15 +616,15 @@ func (f *FuncVC) assertWF(st *State, v *Val) {
 	case KIface:
 		f.assertIfaceWF(st, v)
 	case KMap:
-		f.sc.assert(and(cmp(">=", v.T, "0"), cmp("<", v.T, st.wm)))
+		f.fact(st, and(cmp(">=", v.T, "0"), cmp("<", v.T, st.wm)))
 	case KPtr:
 		if v.P != nil {
 			return
 		}
 		if len(v.Fs) == 2 {
-			f.sc.assert(and(cmp(">=", v.Fs[0].T, "0"), cmp("<", v.Fs[0].T, st.wm), cmp(">=", v.Fs[1].T, "0")))
+			f.fact(st, and(cmp(">=", v.Fs[0].T, "0"), cmp("<", v.Fs[0].T, st.wm), cmp(">=", v.Fs[1].T, "0")))
 		} else {
-			f.sc.assert(and(cmp(">=", v.T, "0"), cmp("<", v.T, st.wm)))
+			f.fact(st, and(cmp(">=", v.T, "0"), cmp("<", v.T, st.wm)))
 		}
 	case KStruct, KTuple:
 		for _, c := range v.Fs {
@@ -917,11 +918,14 @@ func (f *FuncVC) mentionsBound(t string) bool {
 // about every Go heap, so asserting them is sound; terms that mention a bound
 // variable are skipped.
 func (f *FuncVC) pureFacts(st *State, v *Val) {
+	if f.noFacts > 0 {
+		return
+	}
 	switch v.K {
 	case KInt:
 		if b := basicOf(v.Ty); b != nil && !f.mentionsBound(v.T) {
 			if lo, hi, ok := intRange(b); ok {
-				f.sc.assert(and(cmp("<=", numBig(lo), v.T), cmp("<=", v.T, numBig(hi))))
+				f.fact(st, and(cmp("<=", numBig(lo), v.T), cmp("<=", v.T, numBig(hi))))
 			}
 		}
 	case KSlice:
@@ -940,4 +944,14 @@ func (f *FuncVC) pureFacts(st *State, v *Val) {
 			f.pureFacts(st, c)
 		}
 	}
+}
+
+// fact asserts a type invariant of a value that exists on the current path.
+// It is guarded by the path condition: the terms involved may be meaningless
+// (e.g. a negative slice length) on other paths.
+func (f *FuncVC) fact(st *State, term string) {
+	if term == "true" {
+		return
+	}
+	f.sc.assert(implies(st.pc, term))
 }
